@@ -12,7 +12,13 @@ static inline size_t vx_idx(size_t i, size_t n) { __CPROVER_assert(i < n, "VX_BO
 #define VX_HEXDIGIT(v) ((char)((v) < 10 ? '0' + (v) : 'A' + ((v) - 10)))
 size_t g_k;
 '''
-idx_to_char = Fn(name='utils__idx_to_char', header=r'constexpr\s+char\s+idx_to_char\s*\(\s*size_t idx\s*\)', csig='char utils__idx_to_char(size_t idx)')
+idx_to_char = Fn(name='utils__idx_to_char', header=r'constexpr\s+char\s+idx_to_char\s*\(\s*size_t idx\s*\)', csig='char utils__idx_to_char(size_t idx)',
+                 contract='__CPROVER_assigns()\n__CPROVER_ensures((idx < 256) ==> (size_t)(unsigned char)__CPROVER_return_value == idx)',
+                 harness='void h_utils__idx_to_char(void) { size_t i; utils__idx_to_char(i); }', props=['C09', 'C04', 'C03', 'C06', 'C11'])
+# the byte <-> column mapping of every automaton (lexer construction and matching): all 256 byte values are distinct columns
+char_to_idx = Fn(name='utils__char_to_idx', header=r'constexpr\s+size_t\s+char_to_idx\s*\(\s*char c\s*\)', csig='size_t utils__char_to_idx(char c)',
+                 contract='__CPROVER_assigns()\n__CPROVER_ensures(__CPROVER_return_value < 256 && __CPROVER_return_value == (size_t)(unsigned char)c)',
+                 harness='void h_utils__char_to_idx(void) { char c; utils__char_to_idx(c); }', props=['C09', 'C04', 'C03', 'C06', 'C11'])
 char_names__ctor = Fn(
     name='utils__char_names__ctor', scope=[r'class\s+char_names\b'],
     header=r'constexpr\s+char_names\(\)',
@@ -37,7 +43,7 @@ __CPROVER_decreases(256 - i)
 )
 
 
-UNIT = Unit('charnames', PRELUDE, [idx_to_char, char_names__ctor])
+UNIT = Unit('charnames', PRELUDE, [idx_to_char, char_to_idx, char_names__ctor])
 UNIT.facts = [r'char arr\[meta::distinct_chars_count\]\[name_size\] = \{\};', r'const static size_t name_size = 5;', r'constexpr size_t distinct_chars_count = distinct_values_count<char>;']
 
 from vx import native as _N
